@@ -16,6 +16,7 @@ import ReqVerif.Model.SolutionText
 import ReqVerif.Model.BazelLoader
 import ReqVerif.Model.Patch
 import ReqVerif.Model.Vfs
+import ReqVerif.Model.Order
 import ReqVerif.Generated
 /-!
 rvdriver: line protocol between the Python harness and the executable models.
@@ -437,6 +438,7 @@ def dispatch (op : String) (j : Json) : Json :=
   | "load-bazel" => opLoadBazel j
   | "patch-run" => opPatchRun j
   | "vfs" => opVfs j
+  | "sort-keys" => jsonStrs ((Ord.sortAsc (fun (p : List Char) => Ord.lowerStr p) ((jStrs j "names").map String.toList)).map str)
   | "harvest" => opHarvest j
   | "skeleton" => opSkeleton j
   | "scan-page" => opScanPage j
